@@ -1,6 +1,6 @@
 (** C01 — the shared ABI generator encodes and decodes every WIT value per the spec.
     Models: WB.Abi.Gen (abi.rs Generator), WB.Abi.Sig (wit-parser push_flat / SizeAlign), oracle WB.Canon.Spec,
-    contract WB.Abi.Sem.  Proved here (unbounded): the flat form — for every type and every buffer bound the
+    contract WB.Abi.Sem.  Proved here (unbounded): the flat form and the memory layout — for every type and every buffer bound the
     generator's [flat_types] is the ideal flattening when it fits and None exactly when it does not, and the
     ideal flattening resolves to the canonical ABI's [flatten] at pointer widths 4 and 8.
     The value-level statement ("the emitted stream, run under Sem, produces Spec.lower_flat / Spec.store and
@@ -8,7 +8,7 @@
     check_lower_to_memory / check_lift_from_memory; it is evaluated by the check on the REAL streams and is
     not yet a theorem (see DESIGN.md, C01 staging). *)
 From Coq Require Import List NArith Arith.
-From WB Require Import Wit.Ty Canon.Spec Abi.Sig Abi.CastSem Abi.SigProofs.
+From WB Require Import Wit.Ty Canon.Spec Abi.Sig Abi.CastSem Abi.SigProofs Abi.LayoutProofs.
 Import ListNotations.
 
 Theorem C01_flat_types_exact : forall t max,
@@ -19,5 +19,31 @@ Theorem C01_flatten_is_canonical : forall pw t, pw = 4%N \/ pw = 8%N ->
   map (resolve pw) (wflat t) = Spec.flatten pw t.
 Proof. exact wflat_is_spec_flatten. Qed.
 
+(** Memory form, layout: wit-parser's symbolic (bytes + pointers) sizes, alignments, record field offsets and
+    variant payload offsets — everything the generator puts into load/store offsets, Malloc/GuestDeallocate and
+    return-area sizes — evaluate to the canonical ABI's at BOTH pointer widths, for every type (including the
+    cases where the 32- and 64-bit maxima of variant cases come from different cases). *)
+Theorem C01_size_is_canonical : forall pw t, pw = 4%N \/ pw = 8%N ->
+  a_size pw (sa_size t) = Spec.elem_size pw t.
+Proof. exact size_is_canonical. Qed.
+
+Theorem C01_alignment_is_canonical : forall pw t, pw = 4%N \/ pw = 8%N ->
+  a_align pw (sa_align t) = Spec.alignment pw t.
+Proof. exact align_is_canonical. Qed.
+
+Theorem C01_field_offsets_are_canonical : forall pw, pw = 4%N \/ pw = 8%N -> forall ts cur s,
+  a_size pw cur = s ->
+  map (fun '(o, t) => (a_size pw o, t)) (sa_field_offsets_from cur ts) = Spec.field_offsets_from pw s ts.
+Proof. exact field_offsets_canonical. Qed.
+
+Theorem C01_payload_offset_is_canonical : forall pw tagb cs, pw = 4%N \/ pw = 8%N ->
+  tagb = 1%N \/ tagb = 2%N \/ tagb = 4%N ->
+  a_size pw (sa_payload_offset tagb cs) = Spec.payload_offset pw tagb cs.
+Proof. exact payload_offset_canonical. Qed.
+
 Print Assumptions C01_flat_types_exact.
+Print Assumptions C01_size_is_canonical.
+Print Assumptions C01_alignment_is_canonical.
+Print Assumptions C01_field_offsets_are_canonical.
+Print Assumptions C01_payload_offset_is_canonical.
 Print Assumptions C01_flatten_is_canonical.
